@@ -34,9 +34,13 @@ func c17Loopback(c *Ctx) {
 	fm.SetScript(func(ep *farm.Endpoint, src net.Addr, req []byte, seq uint64) []farm.Action {
 		if len(req) == 64 && req[1] == 0x94 && req[4]|req[5]|req[6]|req[7] == 0 {
 			out := []farm.Action{}
-			for i := 0; i < 3; i++ {
+			n := 3
+			if seq%3 == 0 {
+				n = 48 // round 9: a large site - more replies than fit into one 2K receive block (seeded C17-V)
+			}
+			for i := 0; i < n; i++ {
 				vals := rm.Vals{"SerialNumber": rm.Val{K: rm.Serial, U: uint64(0x0d000001 + i + int(seq)<<8)}, "IpAddress": rm.IPVal(10, byte(seq), 0, byte(1+i)), "SubnetMask": rm.IPVal(255, 255, 255, 0), "Gateway": rm.IPVal(10, 0, 0, 254),
-					"MacAddress": rm.Val{K: rm.MAC, B: []byte{byte(seq), 1, 2, 3, 4, byte(i)}}, "Version": rm.UVal(rm.Version, 0x0892), "Date": rm.DateVal(2020, 1, 1+i)}
+					"MacAddress": rm.Val{K: rm.MAC, B: []byte{byte(seq), 1, 2, 3, 4, byte(i)}}, "Version": rm.UVal(rm.Version, 0x0892), "Date": rm.DateVal(2020, 1, 1+i%28)}
 				out = append(out, farm.Action{Data: rm.Encode(rm.FindOp("GetDevice").ReplyLayout(), 0x17, vals)})
 			}
 			return out
@@ -117,6 +121,30 @@ func c17Loopback(c *Ctx) {
 				if devs, err := u.GetDevices(); err == nil {
 					for i := range devs {
 						adapter.ResultHook("GetDevices", &devs[i])
+					}
+					// every entry is the decoding of ONE reply of this discovery: the farm derives address and MAC from the serial
+					// number, so an entry assembled from (or overwritten by) another reply's bytes shows, and so does a reply listed twice
+					seen := map[uint32]bool{}
+					if len(devs) > 32 {
+						c.Res.Count("loopback:discoveries-with-more-than-32-entries", 1)
+					}
+					for i := range devs {
+						sn := uint32(devs[i].SerialNumber)
+						d := sn - 0x0d000001
+						ix, sq := byte(d), byte(d>>8)
+						ip := devs[i].IpAddress.To4()
+						c.Res.Eval(1)
+						if sn>>24 != 0x0d || ix >= 48 || ip == nil || ip[0] != 10 || ip[1] != sq || ip[2] != 0 || ip[3] != 1+ix || len(devs[i].MacAddress) != 6 || devs[i].MacAddress[0] != sq || devs[i].MacAddress[5] != ix {
+							c.Res.Violate("C17:discovery:entry-not-one-reply", fmt.Sprintf("GetDevices (%d entries): entry %d is not the decoding of any single reply that was sent: serial %d address %v MAC %v", len(devs), i, sn, devs[i].IpAddress, devs[i].MacAddress),
+								map[string]any{"entries": len(devs), "entry": i, "value": fmt.Sprintf("%+v", devs[i])}, calls.Load())
+							break
+						}
+						if seen[sn] {
+							c.Res.Violate("C17:discovery:reply-listed-twice", fmt.Sprintf("GetDevices (%d entries): controller %d, which answered once, is listed twice - an earlier reply's buffer was overwritten by a later reply", len(devs), sn),
+								map[string]any{"entries": len(devs), "entry": i, "value": fmt.Sprintf("%+v", devs[i])}, calls.Load())
+							break
+						}
+						seen[sn] = true
 					}
 				}
 				continue
